@@ -453,6 +453,9 @@ func init() {
 			return p.i64(0)
 		}
 		r := p.freshVar("randint", 64)
+		if p.pin != nil && p.eng.randSeed != 0 && n.isConst() && r.isConst() {
+			return p.i64(int64(r.val % n.val))
+		}
 		p.assertPC(p.tt.BAnd(p.tt.Cmp(OpSle, p.i64(0), r), p.tt.Cmp(OpSlt, r, n)))
 		if p.randSmall {
 			p.assertPC(p.tt.Cmp(OpSlt, r, p.i64(2)))
@@ -478,6 +481,9 @@ func init() {
 			panic(targetPanic{iface{v: &runtimeErr{"invalid argument to Uint32N"}}})
 		}
 		r := p.freshVar("randconn", 32)
+		if p.pin != nil && p.eng.randSeed != 0 && n.isConst() && r.isConst() {
+			return p.tt.Const(32, r.val%n.val)
+		}
 		p.assertPC(p.tt.Cmp(OpUlt, r, n))
 		return r
 	}
